@@ -8,8 +8,14 @@ lock-step in four scratch repositories ("twins"), each in its own isolated envir
   T  trace          plain git, no git-ai; core.hooksPath points at scripts that log every hook invocation
                     (name, arguments, stdin, GIT_REFLOG_ACTION, in-progress markers): validates `fires`
 
-All twins get the same clock per step (same author/committer dates) so that corresponding commits have
-the *same* object ids in all four repositories; this is checked after every operation.
+All twins get the same clock per step (same author/committer dates) so that corresponding commits have the
+*same* object ids in all four repositories; this is checked after every operation.
+
+A scenario is a list of *macros* (["work", {...}], ["rebase", {...}], …) expanded deterministically from the
+scenario seed into low-level steps; every git command of the compared alphabet is an *operation*: after it the
+twins are observed (journal, notes of every reachable commit, `git-ai blame --json` of every file, side-state
+files, pending working logs) and the git facts the Lean model needs are collected (from plain git and from the
+trace twin).
 """
 import json, os, stat
 
@@ -31,11 +37,14 @@ n=$(basename "$0")
   [ -d "$gd/rebase-apply" ] && printf 'CTX rebase-apply\n'
   [ -f "$gd/CHERRY_PICK_HEAD" ] && printf 'CTX cherry-pick-head %s\n' "$(cat "$gd/CHERRY_PICK_HEAD")"
   [ -d "$gd/sequencer" ] && printf 'CTX sequencer\n'
-  [ -f "$gd/sequencer/todo" ] && [ -n "$(grep -v '^#' "$gd/sequencer/todo" | tr -d ' \n')" ] && printf 'CTX sequencer-todo-pending\n'
   [ -f "$gd/MERGE_HEAD" ] && printf 'CTX merge-head\n'
   [ -f "$gd/SQUASH_MSG" ] && printf 'CTX squash-msg\n'
+  [ -n "$GIT_DIR" ] && printf 'CTX git-dir-env\n'
   case "$n" in
     post-rewrite|reference-transaction|pre-push) while IFS= read -r line; do printf 'IN %s\n' "$line"; done ;;
+  esac
+  case "$n" in
+    reference-transaction) [ -f "$gd/logs/HEAD" ] && printf 'SUBJ %s\n' "$(tail -n 1 "$gd/logs/HEAD" | cut -f2)" ;;
   esac
   printf 'END\n'
 } >> "$C13_TRACE"
@@ -45,9 +54,23 @@ TRACED_HOOKS = ["pre-commit", "prepare-commit-msg", "commit-msg", "post-commit",
                 "post-merge", "pre-push", "post-rewrite", "reference-transaction", "pre-merge-commit", "post-applypatch",
                 "pre-applypatch", "applypatch-msg"]
 
+SEQ_EDITOR = '''import sys
+mode, path = sys.argv[1], sys.argv[2]
+lines = [l for l in open(path).read().split("\\n")]
+picks = [i for i, l in enumerate(lines) if l.startswith("pick ")]
+if mode == "reorder" and len(picks) >= 2:
+    a, b = picks[0], picks[1]
+    lines[a], lines[b] = lines[b], lines[a]
+elif mode in ("squash", "fixup") and len(picks) >= 2:
+    lines[picks[1]] = mode + lines[picks[1]][4:]
+elif mode == "drop" and len(picks) >= 2:
+    lines[picks[-1]] = "drop" + lines[picks[-1]][4:]
+open(path, "w").write("\\n".join(lines))
+'''
+
 
 def parse_trace(path, start=0):
-    """[{hook,args,act,ctx:[..],stdin:[..]}] from record index `start`"""
+    """[{hook,args,act,ctx:[..],stdin:[..],subj}] from record index `start`"""
     out, cur = [], None
     try:
         data = open(path, errors="replace").read().split("\n")
@@ -55,7 +78,7 @@ def parse_trace(path, start=0):
         return []
     for line in data:
         if line.startswith("HOOK "):
-            cur = {"hook": line[5:], "args": [], "act": "", "ctx": [], "stdin": []}
+            cur = {"hook": line[5:], "args": [], "act": "", "ctx": [], "stdin": [], "subj": ""}
         elif cur is None:
             continue
         elif line.startswith("ARG "):
@@ -66,6 +89,8 @@ def parse_trace(path, start=0):
             cur["ctx"].append(line[4:])
         elif line.startswith("IN "):
             cur["stdin"].append(line[3:])
+        elif line.startswith("SUBJ "):
+            cur["subj"] = line[5:]
         elif line == "END":
             out.append(cur); cur = None
     return out[start:]
@@ -74,24 +99,19 @@ def parse_trace(path, start=0):
 class Twin:
     def __init__(self, kind):
         self.kind = kind
-        if kind in ("H", "B"):
-            self.env = U.HooksEnv()
-        else:
-            self.env = e2e.Env()
+        self.env = U.HooksEnv() if kind in ("H", "B") else e2e.Env()
         self.r = None
         self.trace_path = None
         self.ntrace = 0
-        self.up = None       # bare upstream
-        self.peer = None     # a plain clone used to create upstream commits
+        self.note_cache = {}
+        self.last_err = ""
 
     def close(self):
         self.env.__exit__(None, None, None)
 
     def init(self):
         env = self.env
-        if self.kind == "H":
-            self.r = env.repo("r")
-        elif self.kind == "B":
+        if self.kind == "B":
             self.r = env.repo("r", both=True)
         else:
             self.r = env.repo("r")
@@ -105,6 +125,7 @@ class Twin:
             self.trace_path = os.path.join(env.root, "trace.log")
             env.env["C13_TRACE"] = self.trace_path
             self.r.plain_git("config", "core.hooksPath", hd)
+        open(os.path.join(env.root, "seq.py"), "w").write(SEQ_EDITOR)
 
     # ---------------------------------------------------------------- one low-level step
     def step(self, st):
@@ -120,18 +141,16 @@ class Twin:
             return r.ai_checkpoint(st["session"], st["files"], tool=TOOL)[0]
         if k == "git":
             fn = r.plain_git if self.kind == "T" else r.git
-            rc, out, err = fn(*st["args"], env=st.get("env"))
+            env = dict(st.get("env") or {})
+            if st.get("seq"):
+                env["GIT_SEQUENCE_EDITOR"] = f"python3 {os.path.join(self.env.root, 'seq.py')} {st['seq']}"
+            rc, out, err = fn(*st["args"], env=env or None)
             self.last_err = err
             return rc
         if k == "plain":            # set-up plumbing that is not part of the compared alphabet
-            env = dict(st.get("env") or {})
-            if self.kind in ("H", "B", "T"):
-                # keep managed / tracing hooks out of set-up plumbing
-                args = ["-c", "core.hooksPath=/dev/null"] + list(st["args"])
-            else:
-                args = list(st["args"])
+            args = ["-c", "core.hooksPath=/dev/null"] + list(st["args"])   # keep managed / tracing hooks out of it
             cwd = {"r": r.path, "root": self.env.root, "peer": os.path.join(self.env.root, "peer")}[st.get("cwd", "r")]
-            rc, out, err = r.plain_git(*args, cwd=cwd, env=env)
+            rc, out, err = r.plain_git(*args, cwd=cwd)
             self.last_err = err
             return rc
         if k == "peer_write":
@@ -147,14 +166,16 @@ class Twin:
 
 
 # ------------------------------------------------------------------ observations of one twin
-def observe(tw, files=True):
+def observe(tw):
     r = tw.r
-    o = {}
-    o["head"] = r.head()
+    o = {"head": r.head()}
     rc, out, _ = r.plain_git("for-each-ref", "--format=%(refname) %(objectname)", "refs/heads/", "refs/stash")
     o["refs"] = sorted(l for l in out.split("\n") if l)
     rc, out, _ = r.plain_git("symbolic-ref", "-q", "HEAD")
     o["branch"] = out.strip()
+    gd = os.path.join(r.path, ".git")
+    o["in_progress"] = [n for n in ("rebase-merge", "rebase-apply", "CHERRY_PICK_HEAD", "sequencer", "MERGE_HEAD")
+                        if os.path.exists(os.path.join(gd, n))]
     if tw.kind == "T":
         return o
     o["journal"] = U.rewrite_log(r)
@@ -164,16 +185,624 @@ def observe(tw, files=True):
     nl = r.notes_list()
     o["notes"] = {}
     for c in commits:
-        if c in nl:
-            o["notes"][c] = U.canon_note(r.note_text(c))
-    o["note_keys_foreign"] = sorted(k for k in nl if k not in set(commits))
+        blob = nl.get(c)
+        if blob:
+            if blob not in tw.note_cache:
+                tw.note_cache[blob] = U.canon_note(r.note_text(c))
+            o["notes"][c] = tw.note_cache[blob]
     o["blame"] = {}
-    if files:
-        rc, out, _ = r.plain_git("ls-files", "-z")
-        for p in [x for x in out.split("\0") if x]:
-            bj = r.blame(p)
-            o["blame"][p] = U.canon_blame(bj)
-    gd = os.path.join(r.path, ".git")
-    o["in_progress"] = [n for n in ("rebase-merge", "rebase-apply", "CHERRY_PICK_HEAD", "sequencer", "MERGE_HEAD") if os.path.exists(os.path.join(gd, n))]
+    rc, out, _ = r.plain_git("ls-files", "-z")
+    for p in [x for x in out.split("\0") if x]:
+        o["blame"][p] = U.canon_blame(r.blame(p))
     o["wl"] = U.working_logs(r)
     return o
+
+
+def lines_of(content):
+    return content.split("\n")[:-1] if content.endswith("\n") else (content.split("\n") if content else [])
+
+
+CONFLICT_MARKS = ("<<<<<<<", "=======", ">>>>>>>", "|||||||")
+FILES = ["a.txt", "src/b.rs", "c.md"]
+MACROS_AGREE = ["work", "amend", "rebase", "rebase-onto", "rebase-conflict-continue", "cherry-pick", "cherry-pick-n",
+                "cherry-pick-conflict-continue", "reset", "stash", "squash", "switch", "pull-ff", "pull-rebase"]
+MACROS_FULL = MACROS_AGREE + ["rebase-i-reorder", "rebase-i-squash", "rebase-i-fixup", "rebase-i-drop", "rebase-conflict-abort",
+                              "rebase-conflict-skip", "cherry-pick-range", "cherry-pick-range-conflict", "cherry-pick-conflict-abort",
+                              "reset-human", "reset-hard-head", "reset-forward", "stash-apply", "stash-human", "checkout-force",
+                              "checkout-merge", "checkout-path", "revert"]
+
+
+class Scenario:
+    """Runs macros on the twins; `self.ops` collects one record per compared operation."""
+
+    def __init__(self, seed, kinds="WHBT"):
+        self.seed = seed
+        self.rng = S.Rng(seed ^ 0xC13)
+        self.tw = {}
+        for k in kinds:
+            self.tw[k] = Twin(k)
+        for t in self.tw.values():
+            t.init()
+        self.q = self.tw["W"].r            # the twin asked for git facts (plain git, read-only)
+        self.n = 0
+        self.uid = 0
+        self.nbranch = 0
+        self.ops = []
+        self.steps = []
+        self.sha_ix = {}
+        self.unrec = False                 # human edits no checkpoint has seen
+        self.remote = False
+        self.stash_depth = 0
+        self.pending = None                # facts of a rebase / cherry-pick that stopped
+        self.prev_obs = {k: observe(t) for k, t in self.tw.items()}
+
+    def close(self):
+        for t in self.tw.values():
+            t.close()
+
+    # ---------------------------------------------------------------- basics
+    def ix(self, sha):
+        if sha is None:
+            return None
+        if sha not in self.sha_ix:
+            self.sha_ix[sha] = len(self.sha_ix) + 1
+        return self.sha_ix[sha]
+
+    def low(self, st):
+        self.n += 1
+        self.steps.append(st)
+        rcs = {}
+        for k, t in self.tw.items():
+            t.env.clock = CLOCK0 + self.n * 100
+            rcs[k] = t.step(st)
+        return rcs
+
+    def g(self, *args):
+        rc, out, _ = self.q.plain_git(*args)
+        return out.strip() if rc == 0 else None
+
+    def head(self):
+        return self.g("rev-parse", "--verify", "-q", "HEAD")
+
+    def revlist(self, rng):
+        out = self.g("rev-list", "--reverse", rng)
+        return [x for x in (out or "").split("\n") if x]
+
+    def dirty(self):
+        rc, out, _ = self.q.plain_git("status", "--porcelain", "--untracked-files=no")
+        return bool(out.strip())
+
+    def lines(self, p):
+        try:
+            return lines_of(self.q.read(p))
+        except Exception:
+            return []
+
+    def fresh(self, who):
+        self.uid += 1
+        return f"L{self.uid} {who} " + self.rng.pick(["alpha", "beta();", "return x;", "}", "// note", "let y = 2;"])
+
+    def edit(self, who, p, where="middle", n=None, record_human=False):
+        """one insertion by `who` ('human' or a session) in a region of p; AI edits are bracketed by the agent's
+        pre-edit (human) and post-edit (AI) checkpoints; human edits are not checkpointed unless record_human"""
+        ls = self.lines(p)
+        if who != "human":
+            self.low({"k": "hcp", "files": [p]})
+        k = n or (1 + self.rng.below(2))
+        new = [self.fresh(who) for _ in range(k)]
+        L = len(ls)
+        pos = 0 if where == "top" else (L if where == "bottom" else (max(1, min(L - 1, L // 2)) if L >= 2 else L))
+        ls[pos:pos] = new
+        self.low({"k": "write", "path": p, "content": "".join(l + "\n" for l in ls)})
+        if who != "human":
+            self.low({"k": "aicp", "session": who, "files": [p]})
+        elif record_human:
+            self.low({"k": "hcp", "files": [p]})
+        else:
+            self.unrec = True
+
+    def replace_line(self, who, p, idx, text):
+        ls = self.lines(p)
+        if who != "human":
+            self.low({"k": "hcp", "files": [p]})
+        ls[idx] = text
+        self.low({"k": "write", "path": p, "content": "".join(l + "\n" for l in ls)})
+        if who != "human":
+            self.low({"k": "aicp", "session": who, "files": [p]})
+        else:
+            self.unrec = True
+
+    # ---------------------------------------------------------------- a compared operation
+    def op(self, label, args, model, seq=None, env=None):
+        """run one git command of the alphabet on every twin, observe, and record the facts.
+        `model(pre, rc, trace)` returns the Lean op (dict) or None when the facts cannot be established."""
+        pre = {"head": self.head(), "dirty": self.dirty(), "unrec": self.unrec,
+               "wl": set(self.prev_obs["W"].get("wl", {}).keys()) if "W" in self.prev_obs else set(),
+               "stash": self.g("rev-parse", "--verify", "-q", "refs/stash"),
+               "stash_count": len([l for l in (self.g("stash", "list") or "").split("\n") if l])}
+        resolved = {}
+        for a in args:
+            if not a.startswith("-"):
+                v = self.g("rev-parse", "--verify", "-q", a + "^{commit}")
+                if v:
+                    resolved[a] = v
+        st = {"k": "git", "args": list(args)}
+        if seq:
+            st["seq"] = seq
+        if env:
+            st["env"] = env
+        rcs = self.low(st)
+        obs = {k: observe(t) for k, t in self.tw.items()}
+        trace = self.tw["T"].new_trace() if "T" in self.tw else []
+        rc = rcs["W"]
+        try:
+            m = model(pre, rc, trace) if model else None
+        except Exception as e:      # facts could not be established: recorded, the op is not sent to the model
+            m = {"error": repr(e)}
+        for r in trace:
+            if r["hook"] == "pre-rebase":
+                for a in r["args"]:
+                    if a not in resolved:
+                        resolved[a] = self.g("rev-parse", "--verify", "-q", a + "^{commit}")
+        rec = {"label": label, "args": list(args), "rcs": rcs, "obs": obs, "prev": self.prev_obs, "trace": trace, "model": m,
+               "resolved": resolved,
+               "pre": {k: (sorted(v) if isinstance(v, set) else v) for k, v in pre.items()}}
+        self.ops.append(rec)
+        self.prev_obs = obs
+        return rc
+
+    # ---------------------------------------------------------------- model ops from git facts
+    def m_commit(self, pre, rc, trace):
+        h = self.head()
+        if rc != 0 or h == pre["head"]:
+            return {"k": "commitFails", "head": self.ix(pre["head"]), "unrecorded": pre["unrec"]}
+        return {"k": "commit", "parent": self.ix(pre["head"]), "new": self.ix(h), "unrecorded": pre["unrec"]}
+
+    def m_amend(self, pre, rc, trace):
+        h = self.head()
+        if rc != 0 or h == pre["head"]:
+            return {"k": "commitFails", "head": self.ix(pre["head"]), "unrecorded": pre["unrec"]}
+        return {"k": "amend", "old": self.ix(pre["head"]), "new": self.ix(h),
+                "oldParent": self.ix(self.g("rev-parse", "--verify", "-q", pre["head"] + "^")), "unrecorded": pre["unrec"]}
+
+    def inner_of(self, trace, skip_first_head=False):
+        """hooks git ran while .git/rebase-merge existed, in the model's vocabulary (`skip_first_head`: the
+        transaction that detaches HEAD onto the new base belongs to the start of the rebase, not to the picks)"""
+        out = []
+        for r in trace:
+            if "rebase-merge" not in r["ctx"] and "rebase-apply" not in r["ctx"]:
+                continue
+            h = r["hook"]
+            if h in ("pre-commit", "prepare-commit-msg", "commit-msg", "post-commit"):
+                out.append([h])
+            elif h == "post-rewrite" and r["args"][:1] == ["amend"]:
+                out.append(["post-rewrite-amend"] + [[self.ix(x.split()[0]), self.ix(x.split()[1])] for x in r["stdin"]])
+            elif h == "reference-transaction" and r["args"][:1] == ["committed"]:
+                for line in r["stdin"]:
+                    f = line.split()
+                    if len(f) >= 3 and f[2] == "HEAD" and set(f[0]) != {"0"} and set(f[1]) != {"0"}:
+                        if skip_first_head:
+                            skip_first_head = False
+                        else:
+                            out.append(["ref-head", self.ix(f[0]), self.ix(f[1])])
+        return out
+
+    def rebase_facts(self, start, trace, pull=False, first=True):
+        """RebaseFacts after the rebase finished; `start` = {orig, onto, upstreamArg, interactive, wl}"""
+        nh = self.head()
+        orig, onto = start["orig"], start["onto"]
+        mb = self.g("merge-base", orig, nh)
+        chain = self.revlist(f"{mb}..{orig}") if mb else []
+        anc = self.q.plain_git("merge-base", "--is-ancestor", onto, nh)[0] == 0
+        new_chain = self.revlist(f"{onto if anc else mb}..{nh}") if chain else []
+        pairs = []
+        for r in trace:
+            if r["hook"] == "post-rewrite" and r["args"][:1] == ["rebase"]:
+                pairs = [[self.ix(x.split()[0]), self.ix(x.split()[1])] for x in r["stdin"] if len(x.split()) >= 2]
+        return {"orig": self.ix(orig), "onto": self.ix(onto), "upstreamArg": self.ix(start["upstreamArg"]),
+                "branchArg": self.ix(start.get("branchArg")),
+                "interactive": start["interactive"], "chain": [self.ix(c) for c in chain], "newChain": [self.ix(c) for c in new_chain],
+                "pairs": pairs, "newHead": self.ix(nh), "inner": self.inner_of(trace, first), "wlAtOrig": start["wl"]}
+
+    def in_progress(self):
+        gd = os.path.join(self.q.path, ".git")
+        return [n for n in ("rebase-merge", "rebase-apply", "CHERRY_PICK_HEAD", "sequencer") if os.path.exists(os.path.join(gd, n))]
+
+    def m_rebase(self, start, pull=False):
+        def f(pre, rc, trace):
+            if self.in_progress():
+                self.pending = ("rebase", start)
+                return dict({"k": "rebaseStop", "orig": self.ix(start["orig"]), "onto": self.ix(start["onto"]),
+                             "upstreamArg": self.ix(start["upstreamArg"]), "branchArg": self.ix(start.get("branchArg")),
+                             "interactive": start["interactive"], "chain": [],
+                             "newChain": [], "pairs": [], "newHead": self.ix(start["orig"]), "inner": self.inner_of(trace, True),
+                             "wlAtOrig": start["wl"]})
+            if rc != 0:
+                return None
+            r = self.rebase_facts(start, trace, pull)
+            r["k"] = "pullRebase" if pull else "rebase"
+            return r
+        return f
+
+    def m_rebase_continue(self, pre, rc, trace):
+        kind, start = self.pending
+        if self.in_progress():
+            return None
+        self.pending = None
+        if rc != 0:
+            return None
+        r = self.rebase_facts(start, trace, first=False)
+        r["k"] = "rebaseContinue"
+        return r
+
+    def m_rebase_abort(self, pre, rc, trace):
+        kind, start = self.pending
+        self.pending = None
+        return {"k": "rebaseAbort", "orig": self.ix(start["orig"]), "onto": self.ix(start["onto"]),
+                "upstreamArg": self.ix(start["upstreamArg"]), "interactive": start["interactive"], "chain": [], "newChain": [],
+                "pairs": [], "newHead": self.ix(start["orig"]), "inner": [], "wlAtOrig": start["wl"]}
+
+    def m_cherry_pick(self, srcs, nocommit=False):
+        def f(pre, rc, trace):
+            h0, h1 = pre["head"], self.head()
+            if nocommit:
+                return {"k": "cherryPickNoCommit", "head": self.ix(h0), "src": self.ix(srcs[0])}
+            news = self.revlist(f"{h0}..{h1}")
+            if self.in_progress():
+                self.pending = ("cherry-pick", {"head": h0, "srcs": srcs, "done": news})
+                return {"k": "cherryPickStop", "head": self.ix(h0), "srcs": [self.ix(s) for s in srcs],
+                        "done": [[self.ix(s), self.ix(n)] for s, n in zip(srcs, news)]}
+            if rc != 0 or len(news) != len(srcs):
+                return None
+            return {"k": "cherryPick", "head": self.ix(h0), "pairs": [[self.ix(s), self.ix(n)] for s, n in zip(srcs, news)]}
+        return f
+
+    def m_cherry_pick_continue(self, pre, rc, trace):
+        kind, p = self.pending
+        if self.in_progress() or rc != 0:
+            return None
+        self.pending = None
+        news = self.revlist(f"{p['head']}..{self.head()}")
+        nd = len(p["done"])
+        if len(news) != len(p["srcs"]):
+            return None
+        pairs = [[self.ix(s), self.ix(n)] for s, n in zip(p["srcs"], news)]
+        return {"k": "cherryPickContinue", "head": self.ix(p["head"]), "srcs": [self.ix(s) for s in p["srcs"]],
+                "done": pairs[:nd], "res": pairs[nd], "rest": pairs[nd + 1:], "multi": len(p["srcs"]) > 1}
+
+    def m_cherry_pick_abort(self, pre, rc, trace):
+        kind, p = self.pending
+        self.pending = None
+        return {"k": "cherryPickAbort", "head": self.ix(p["head"])}
+
+    def m_reset(self, kind):
+        def f(pre, rc, trace):
+            if rc != 0:
+                return None
+            o, n = pre["head"], self.head()
+            back = self.q.plain_git("merge-base", "--is-ancestor", n, o)[0] == 0
+            return {"k": "reset", "kind": kind, "old": self.ix(o), "new": self.ix(n), "backward": back,
+                    "dirtyAfter": self.dirty(), "unrecorded": pre["unrec"]}
+        return f
+
+    def m_stash_push(self, pre, rc, trace):
+        s = self.g("rev-parse", "--verify", "-q", "refs/stash")
+        if rc != 0 or s == pre["stash"]:
+            return None
+        return {"k": "stashPush", "head": self.ix(pre["head"]), "stash": self.ix(s), "count": pre["stash_count"],
+                "prevStash": self.ix(pre["stash"]), "unrecorded": pre["unrec"]}
+
+    def m_stash_pop(self, pre, rc, trace):
+        if rc != 0:
+            return None
+        return {"k": "stashPop", "head": self.ix(pre["head"]), "stash": self.ix(pre["stash"]), "count": pre["stash_count"],
+                "next": self.ix(self.g("rev-parse", "--verify", "-q", "refs/stash")), "dirtyAfter": self.dirty()}
+
+    def m_stash_apply(self, pre, rc, trace):
+        if rc != 0:
+            return None
+        return {"k": "stashApply", "head": self.ix(pre["head"]), "stash": self.ix(pre["stash"])}
+
+    def m_checkout(self, sw, mode, create):
+        def f(pre, rc, trace):
+            if rc != 0:
+                return None
+            return {"k": "checkout", "switch": sw, "old": self.ix(pre["head"]), "new": self.ix(self.head()), "mode": mode,
+                    "dirty": pre["dirty"], "create": create, "wl": pre["head"] in pre["wl"]}
+        return f
+
+    # ---------------------------------------------------------------- command helpers
+    def commit(self, msg, label="commit", extra=()):
+        self.low({"k": "git", "args": ["add", "-A"]})
+        rc = self.op(label, ["commit", "-q", "-m", msg] + list(extra), self.m_amend if "--amend" in extra else self.m_commit)
+        self.unrec = False        # both modes took the pre-commit checkpoint
+        return rc
+
+    def switch(self, branch, create=False, cmd="switch", mode="plain", label=None):
+        args = [cmd, "-q"]
+        if mode == "force":
+            args.append("-f")
+        if mode == "merge":
+            args.append("-m")
+        if create:
+            args.append("-c" if cmd == "switch" else "-b")
+        args.append(branch)
+        lab = label or {"plain": ("switch-c" if create else cmd), "force": "checkout-force", "merge": "checkout-merge"}[mode]
+        return self.op(lab, args, self.m_checkout(cmd == "switch", mode, create))
+
+    def new_branch(self):
+        self.nbranch += 1
+        return f"f{self.nbranch}"
+
+    def who(self):
+        return self.rng.pick(["s1", "s2", "s1", "human"])
+
+    def work_commit(self, msg, files=None, where=None, n_edits=None, ai=False):
+        for _ in range(n_edits or (1 + self.rng.below(2))):
+            w = self.rng.pick(["s1", "s2"]) if ai else self.who()
+            self.edit(w, self.rng.pick(files or FILES), where or self.rng.pick(["top", "middle", "bottom"]))
+        return self.commit(msg)
+
+    def feature(self, n, base_files=None, upstream="other"):
+        """branch fK with n commits touching distinct files (so they can be reordered), one upstream commit on main"""
+        br = self.new_branch()
+        self.switch(br, create=True)
+        for i in range(n):
+            f = FILES[i % len(FILES)]
+            self.edit(self.rng.pick(["s1", "s2"]), f, "middle")
+            if self.rng.chance(1, 2):
+                self.edit("human", f, "bottom", record_human=True)
+            self.commit(f"{br} {i}")
+        self.switch("main")
+        if upstream == "other":
+            self.edit("human", "upstream.txt", "bottom", record_human=True)
+        elif upstream == "above":
+            self.edit(self.rng.pick(["human", "s2"]), FILES[0], "top", record_human=True)
+        if upstream != "none":
+            self.commit(f"up for {br}")
+        return br
+
+    def conflict_branch(self):
+        """branch whose first commit conflicts with a commit made on main afterwards; second commit is clean"""
+        br = self.new_branch()
+        p = FILES[0]
+        self.switch(br, create=True)
+        idx = min(3, max(0, len(self.lines(p)) - 1))
+        self.replace_line(self.rng.pick(["s1", "s2"]), p, idx, self.fresh("feat-conflict"))
+        self.commit(f"{br} conflict")
+        self.edit("s1", FILES[1], "bottom")
+        self.commit(f"{br} tail")
+        self.switch("main")
+        self.replace_line("human", p, idx, self.fresh("up-conflict"))
+        self.low({"k": "hcp", "files": [p]}); self.unrec = False
+        self.commit(f"up conflict for {br}")
+        return br, p
+
+    def resolve(self, p):
+        ls = [l for l in self.lines(p) if not l.startswith(CONFLICT_MARKS)]
+        who = self.rng.pick(["human", "s2"])
+        if who != "human":
+            self.low({"k": "hcp", "files": [p]})
+        ls.insert(len(ls) // 2, self.fresh(who))
+        self.low({"k": "write", "path": p, "content": "".join(l + "\n" for l in ls)})
+        if who != "human":
+            self.low({"k": "aicp", "session": who, "files": [p]})
+        else:
+            self.low({"k": "hcp", "files": [p]})
+        self.low({"k": "git", "args": ["add", "-A"]})
+
+    def ensure_remote(self):
+        if self.remote:
+            return
+        self.remote = True
+        for st in ([{"k": "plain", "args": ["init", "-q", "--bare", "-b", "main", "up.git"], "cwd": "root"},
+                    {"k": "plain", "args": ["remote", "add", "origin", "../up.git"]},
+                    {"k": "plain", "args": ["push", "-q", "-u", "origin", "main"]},
+                    {"k": "plain", "args": ["clone", "-q", "up.git", "peer"], "cwd": "root"}]):
+            self.low(st)
+
+    def peer_commit(self):
+        self.uid += 1
+        self.low({"k": "plain", "args": ["pull", "-q", "--ff-only"], "cwd": "peer"})
+        self.low({"k": "peer_write", "path": f"peer{self.uid}.txt", "content": f"peer {self.uid}\n"})
+        self.low({"k": "plain", "args": ["add", "-A"], "cwd": "peer"})
+        self.low({"k": "plain", "args": ["commit", "-q", "-m", f"peer {self.uid}"], "cwd": "peer"})
+        self.low({"k": "plain", "args": ["push", "-q", "origin", "main"], "cwd": "peer"})
+
+    # ---------------------------------------------------------------- macros
+    def run_macro(self, name, prm=None):
+        prm = prm or {}
+        rng = self.rng
+        if name == "base":
+            for p in FILES[:2 + rng.below(2)]:
+                self.low({"k": "write", "path": p, "content": "".join(self.fresh("base") + "\n" for _ in range(8))})
+            self.commit("base")
+        elif name == "work":
+            self.work_commit("work")
+        elif name == "amend":
+            self.work_commit("to amend", ai=True)
+            for _ in range(1 + rng.below(2)):
+                self.edit(self.who(), rng.pick(FILES), rng.pick(["top", "middle", "bottom"]))
+            self.commit("amended", label="amend", extra=["--amend"])
+        elif name in ("rebase", "rebase-onto") or name.startswith("rebase-i-"):
+            n = 3 if name.startswith("rebase-i-") else 2 + rng.below(2)
+            br = self.feature(n, upstream=prm.get("upstream") or rng.pick(["other", "above"]))
+            self.switch(br)
+            orig, main = self.head(), self.g("rev-parse", "main")
+            start = {"orig": orig, "onto": main, "upstreamArg": main, "interactive": name.startswith("rebase-i-"),
+                     "wl": orig in self.prev_obs["W"].get("wl", {})}
+            if name == "rebase":
+                self.op("rebase", ["rebase", "main"], self.m_rebase(start))
+            elif name == "rebase-onto":
+                up = self.g("rev-parse", f"{br}~{n}")
+                start["upstreamArg"] = up
+                start["branchArg"] = orig
+                self.op("rebase-onto", ["rebase", "--onto", "main", f"{br}~{n}", br], self.m_rebase(start))
+            else:
+                self.op(name, ["rebase", "-i", "main"], self.m_rebase(start), seq=name.split("-")[-1])
+            if self.pending:
+                self.op("rebase-abort", ["rebase", "--abort"], self.m_rebase_abort)
+            self.work_commit("after rebase", ai=True)
+            self.switch("main")
+        elif name.startswith("rebase-conflict-"):
+            br, p = self.conflict_branch()
+            self.switch(br)
+            orig, main = self.head(), self.g("rev-parse", "main")
+            start = {"orig": orig, "onto": main, "upstreamArg": main, "interactive": False,
+                     "wl": orig in self.prev_obs["W"].get("wl", {})}
+            self.op("rebase-conflict-stop", ["rebase", "main"], self.m_rebase(start))
+            if self.pending:
+                act = name.split("-")[-1]
+                if act == "continue":
+                    self.resolve(p)
+                    self.op("rebase-continue", ["rebase", "--continue"], self.m_rebase_continue)
+                elif act == "skip":
+                    self.op("rebase-skip", ["rebase", "--skip"], self.m_rebase_continue)
+                else:
+                    self.op("rebase-abort", ["rebase", "--abort"], self.m_rebase_abort)
+                if self.pending:
+                    self.op("rebase-abort", ["rebase", "--abort"], self.m_rebase_abort)
+            self.work_commit("after rebase", ai=True)
+            self.work_commit("after rebase 2", ai=True)
+            self.switch("main")
+        elif name in ("cherry-pick", "cherry-pick-range", "cherry-pick-n"):
+            n = 1 + rng.below(2) if name != "cherry-pick-range" else 2 + rng.below(2)
+            br = self.feature(n, upstream=prm.get("upstream") or rng.pick(["other", "above", "none"]))
+            if name == "cherry-pick":
+                src = self.g("rev-parse", f"{br}~{n - 1}")
+                self.op("cherry-pick", ["cherry-pick", src], self.m_cherry_pick([src]))
+            elif name == "cherry-pick-n":
+                src = self.g("rev-parse", f"{br}~{n - 1}")
+                self.op("cherry-pick-n", ["cherry-pick", "-n", src], self.m_cherry_pick([src], nocommit=True))
+                self.commit("picked -n")
+            else:
+                srcs = self.revlist(f"{br}~{n}..{br}")
+                self.op("cherry-pick-range", ["cherry-pick", f"{br}~{n}..{br}"], self.m_cherry_pick(srcs))
+            if self.pending:
+                self.op("cherry-pick-abort", ["cherry-pick", "--abort"], self.m_cherry_pick_abort)
+            self.work_commit("after cherry-pick", ai=True)
+        elif name.startswith("cherry-pick-conflict-") or name == "cherry-pick-range-conflict":
+            br, p = self.conflict_branch()
+            if name == "cherry-pick-range-conflict":
+                srcs = self.revlist(f"{br}~2..{br}")
+                self.op("cherry-pick-range-conflict-stop", ["cherry-pick", f"{br}~2..{br}"], self.m_cherry_pick(srcs))
+                act = "continue"
+            else:
+                src = self.g("rev-parse", f"{br}~1")
+                self.op("cherry-pick-conflict-stop", ["cherry-pick", src], self.m_cherry_pick([src]))
+                act = name.split("-")[-1]
+            if self.pending:
+                if act == "continue":
+                    self.resolve(p)
+                    lab = "cherry-pick-range-continue" if name == "cherry-pick-range-conflict" else "cherry-pick-continue"
+                    self.op(lab, ["cherry-pick", "--continue"], self.m_cherry_pick_continue, env={"GIT_EDITOR": "true"})
+                else:
+                    self.op("cherry-pick-abort", ["cherry-pick", "--abort"], self.m_cherry_pick_abort)
+                if self.pending:
+                    self.op("cherry-pick-abort", ["cherry-pick", "--abort"], self.m_cherry_pick_abort)
+            self.work_commit("after cherry-pick", ai=True)
+        elif name in ("reset", "reset-human", "reset-hard-head", "reset-forward"):
+            k = 1 + rng.below(2)
+            for i in range(k + 1):
+                self.work_commit(f"r{i}", ai=True)
+            if name == "reset-hard-head":
+                self.edit("s1", rng.pick(FILES), "top")
+                self.op("reset-hard-head", ["reset", "-q", "--hard", "HEAD"], self.m_reset("hard"))
+            elif name == "reset-forward":
+                self.op("reset-hard", ["reset", "-q", "--hard", f"HEAD~{k}"], self.m_reset("hard"))
+                self.edit("s1", rng.pick(FILES), "top")
+                kind = rng.pick(["soft", "mixed"])
+                self.op("reset-forward", ["reset", "-q", f"--{kind}", "ORIG_HEAD"], self.m_reset(kind))
+            else:
+                kind = prm.get("kind") or rng.pick(["soft", "mixed", "hard"])
+                if name == "reset-human":
+                    # a person rewrites a pending AI line and nobody checkpoints before the reset
+                    p = rng.pick(FILES[:2])
+                    self.edit("s1", p, "top", n=2)
+                    self.replace_line("human", p, 0, self.lines(p)[0] + " humanised")
+                    self.edit("human", p, "bottom")
+                elif rng.chance(1, 2) and kind != "hard":
+                    self.edit("s1", rng.pick(FILES), "top")           # pending AI work on top
+                self.op(f"reset-{kind}" + ("+unrecorded" if self.unrec else ""), ["reset", "-q", f"--{kind}", f"HEAD~{k}"], self.m_reset(kind))
+            self.commit("after reset")
+            self.work_commit("after reset 2", ai=True)
+        elif name in ("stash", "stash-apply", "stash-human"):
+            self.edit("s1", FILES[0], "middle")
+            self.edit("s2", FILES[1], "bottom")
+            if name == "stash-human":
+                ls = self.lines(FILES[0])
+                self.replace_line("human", FILES[0], len(ls) // 2, ls[len(ls) // 2] + " humanised")
+            elif rng.chance(1, 2):
+                self.edit("human", FILES[0], "bottom", record_human=True)
+            self.op("stash-push" + ("+unrecorded" if self.unrec else ""), ["stash"], self.m_stash_push)
+            self.unrec = False
+            up = prm.get("upstream", rng.pick([True, False]))
+            if up:
+                self.edit("human", "upstream.txt", "bottom", record_human=True)
+                self.commit("up while stashed")
+            if name == "stash-apply":
+                self.op("stash-apply", ["stash", "apply"], self.m_stash_apply)
+            else:
+                self.op("stash-pop", ["stash", "pop"], self.m_stash_pop)
+            self.commit("after unstash")
+        elif name == "squash":
+            br = self.feature(2 + rng.below(2), upstream=rng.pick(["other", "above"]))
+            src = self.g("rev-parse", br)
+            self.op("merge-squash", ["merge", "--squash", br],
+                    lambda pre, rc, tr: {"k": "mergeSquash", "src": self.ix(src), "base": self.ix(pre["head"])} if rc == 0 else None)
+            self.low({"k": "git", "args": ["add", "-A"]})
+            self.op("commit", ["commit", "-q", "-m", "squashed"], self.m_commit)
+        elif name in ("switch", "checkout-force", "checkout-merge", "checkout-path"):
+            br = self.new_branch()
+            self.low({"k": "plain", "args": ["branch", br]})
+            self.switch(br)
+            self.edit("human", "other.txt", "bottom", record_human=True)
+            self.commit(f"{br} work")
+            self.switch("main")
+            self.edit("s1", FILES[0], "middle")
+            if rng.chance(1, 2):
+                self.edit("human", FILES[0], "bottom", record_human=True)
+            if name == "switch":
+                how = prm.get("how") or rng.pick(["switch", "checkout", "switch-c"])
+                if how == "switch-c":
+                    self.switch(self.new_branch(), create=True)
+                else:
+                    self.switch(br, cmd=how)
+            elif name == "checkout-force":
+                self.switch(br, cmd="checkout", mode="force")
+            elif name == "checkout-merge":
+                self.switch(br, cmd="checkout", mode="merge")
+            else:
+                self.op("checkout-path", ["checkout", "--", FILES[0]],
+                        lambda pre, rc, tr: {"k": "checkoutPath", "head": self.ix(pre["head"])} if rc == 0 else None)
+            self.edit("s2", FILES[1], "bottom")
+            self.commit("carried")
+            self.switch("main")
+        elif name in ("pull-ff", "pull-rebase"):
+            if self.g("symbolic-ref", "-q", "--short", "HEAD") != "main":
+                self.switch("main")
+            self.ensure_remote()
+            self.low({"k": "plain", "args": ["push", "-q", "origin", "main"]})
+            self.peer_commit()
+            if name == "pull-ff":
+                self.edit("s1", FILES[0], "middle")       # pending AI work carried over the fast-forward
+                self.op("pull-ff", ["pull", "-q", "--ff-only"],
+                        lambda pre, rc, tr: {"k": "pullFF", "old": self.ix(pre["head"]), "new": self.ix(self.head()),
+                                             "wl": pre["head"] in pre["wl"]} if rc == 0 else None)
+                self.commit("after pull")
+            else:
+                self.work_commit("local 1", ai=True)
+                self.work_commit("local 2", ai=True)
+                orig = self.head()
+                def mk(pre, rc, tr):
+                    up = self.g("rev-parse", "@{upstream}")
+                    start = {"orig": orig, "onto": up, "upstreamArg": up, "interactive": False, "wl": orig in pre["wl"]}
+                    return self.m_rebase(start, pull=True)(pre, rc, tr)
+                self.op("pull-rebase", ["pull", "-q", "--rebase"], mk)
+                self.work_commit("after pull", ai=True)
+        elif name == "revert":
+            self.work_commit("to revert", ai=True)
+            self.op("revert", ["revert", "--no-edit", "HEAD"], None)
+            self.work_commit("after revert", ai=True)
+        else:
+            raise ValueError(f"unknown macro {name}")
